@@ -728,9 +728,9 @@ CORPUS = [
 
 class Disk(C.Stream):
     name = "C14.disk"
-    quick_cases = 260
+    quick_cases = 220
     thorough_cases = 2600
-    quick_seconds = 22
+    quick_seconds = 16
     thorough_seconds = 220
     chunk = 40
     corpus = CORPUS
